@@ -264,6 +264,10 @@ func (g *gen) newEnum(f *File, parent *Message) string {
 		ev := &EnumValue{Name: prefix + v, Number: num}
 		if custom && g.bool("valcustom") {
 			c := pick(g, customVals, "customval")
+			if g.p.HostileText && g.oneIn(4, "customhostile") && !g.avoid("enum_value_text_unescaped") {
+				c = pick(g, []string{"5'6\"", "N/A \\ none", "it's", "a`b${c}"}, "customhostileval")
+				g.tagf("enum_value:hostile_text")
+			}
 			if !usedCustom[c] {
 				usedCustom[c] = true
 				ev.Custom = c
@@ -554,6 +558,10 @@ func (g *gen) addOneof(m *Message, fq string, c *fieldCtx, disc, flat bool) *One
 		f.Oneof = oname
 		if disc && g.oneIn(2, "oneofvalue") {
 			f.EnsureAnn().OneofValue = pick(g, []string{"txt", "IMG", "kind-a", "b.v2", "with space"}, "oneofval") + fmt.Sprint(i)
+			if g.p.HostileText && g.oneIn(4, "oneofvalhostile") && !g.avoid("oneof_value_text_unescaped") {
+				f.Ann.OneofValue = pick(g, []string{"5'6\"", "back\\slash", "it's", "a`b${c}"}, "oneofvalhostileval") + fmt.Sprint(i)
+				g.tagf("oneof_value:hostile_text")
+			}
 			g.tagf("oneof_value")
 		}
 		m.Fields = append(m.Fields, f)
